@@ -39,6 +39,12 @@ def scenarios(c):
                 add(proto, mutual, 1 + i % 3, "w%d,r%d:16384,x" % (n, m), "w%d,r%d:20000,r1:8" % (m, n), frag=c.seed + 100 + i)
             # several writes, interleaved small reads
             add(proto, mutual, 2, "w5,w17000,w1,r3:2,r40:64,x", "r10:3,r16996:5000,w43,r17:17,r1:1", frag=c.seed + 7)
+            # a record is read only in part, the reader then WRITES, and only afterwards drains the rest (an echo loop with a small buffer): both roles
+            for i, (n, cap, back) in enumerate([(4000, 1600, 100), (16384, 1, 16384), (300, 7, 1)] if c.quick else [(4000, 1600, 100), (16384, 1, 16384), (300, 7, 1), (16385, 16000, 50), (2, 1, 20000)]):
+                # (TLS 1.3 sends in that state; TLCP / TLS 1.2 refuse the write -- 'W' = an attempt that may be refused -- and send once the record is drained)
+                mid = "W%d,r%d:%d" % (back, n - cap, cap) + ("" if proto == 772 else ",w%d" % back)
+                add(proto, mutual, 1 + i % 3, "w%d,r%d:256,w10,x" % (n, back), "r%d:%d,%s,r10:64,r1:8" % (cap, cap, mid), frag=c.seed + 200 + i)
+                add(proto, mutual, 1 + i % 3, "r%d:%d,%s,r10:64,x" % (cap, cap, mid), "w%d,r%d:256,w10,r1:8" % (n, back), frag=c.seed + 300 + i)
             if not c.quick:
                 for k in range(20):
                     rr = c.rng
